@@ -47,7 +47,7 @@ func selfArgs(out string, stub bool) []string {
 
 func checkC19(c *Ctx) error {
 	w := c.W
-	c.Rule = "self-hosting fixpoint replay: generation g regenerates internal/gontainer/gontainer.go with the tool built from generation g-1 (g=0: the checked-in file), compared byte for byte modulo the `// gontainer version:` line; generation 0 runs an unstamped build, generations 1 and 2 are rebuilt with the Makefile's ldflags stamps (clean, then dirty tree); regeneration happens in place like `make self-compile`; each (generation, repetition) comparison is one case, distinct by (generation, repetition)"
+	c.Rule = "self-hosting fixpoint replay: generation g regenerates internal/gontainer/gontainer.go with the tool built from generation g-1 (g=0: the checked-in file), compared byte for byte modulo the `// gontainer version:` line; generation 0 runs an unstamped build, generations 1 and 2 are rebuilt with the Makefile's ldflags stamps (clean, then dirty tree); regeneration happens in place like `make self-compile`; the final tree is also built with release stamps (.goreleaser.yaml ldflags, versions with and without the v prefix, other major/minor numbers, pre-release and build metadata) and each such binary regenerates once; each (generation, repetition) comparison is one case, distinct by (generation, repetition)"
 	c.Assumptions = []string{"Makefile self-compile arguments are the intended self configuration", "go build of the scratch copy is faithful to /repo's working tree"}
 	gens := 3
 	reps := c.Pick(2, 10)
@@ -107,6 +107,32 @@ func checkC19(c *Ctx) error {
 		}
 		bin = nb
 		c.Add("tool_rebuilds", 1)
+	}
+	// release builds (.goreleaser.yaml stamps the tag as main.version; `go install …@vX.Y.Z` stamps the module version): every
+	// one of them is "the tool built from the tree" and has to accept and reproduce its own configuration
+	stamps := []string{"0.10.0", "v1.0.0"}
+	if c.Thorough() {
+		stamps = []string{"0.10.0", "v0.10.0", "1.0.0", "v1.0.0", "0.0.1", "v2.3.4-rc.1", "0.9.3", "v10.20.30+build.5", "devel", "(devel)", ""}
+	}
+	for _, v := range stamps {
+		rb := filepath.Join(w.Dir, "bin", "gontainer-release")
+		ld := "-s -w -X main.version=" + v + " -X main.commit=0123456789abcdef0123456789abcdef01234567 -X main.date=2026-01-02T03:04:05Z -X main.builtBy=goreleaser -X main.isGitDirty=false"
+		if v == "" {
+			ld = "-s -w"
+		}
+		if err := w.BuildTool(rb, ld, "", false); err != nil {
+			return fmt.Errorf("release-stamped build: %v", err)
+		}
+		out := filepath.Join(w.TempDir("c19r"), "gontainer.go")
+		run := cli.Do(w, rb, nil, w.Repo, out, selfArgs(out, false)...)
+		c.Eval("release-stamp/"+v, true)
+		c.Add("release_stamped_builds", 1)
+		got, _ := os.ReadFile(out)
+		if run.Res.Exit != 0 {
+			c.Violate("selfcompile-fails-release-build", fmt.Sprintf("a build stamped main.version=%q rejects the tool's own configuration\n%s", v, run.Res.Stdout), nil)
+		} else if normGen(got) != want {
+			c.Violate("release-build-differs", fmt.Sprintf("a build stamped main.version=%q regenerates a different container\n%s", v, firstDiff(want, normGen(got))), map[string]string{"regenerated.go": string(got)})
+		}
 	}
 	// the same configuration given with an additional pattern that matches nothing (before the real ones) is the same configuration
 	{
